@@ -22,9 +22,13 @@ import (
 	"context"
 	"errors"
 	"fmt"
+	"os"
 	"runtime"
+	"strconv"
+	"sync/atomic"
 	"testing"
 	"time"
+	"unsafe"
 
 	"github.com/golang/mock/gomock"
 
@@ -47,7 +51,7 @@ Import ListNotations.
 Open Scope Z_scope.
 `
 
-const c20Watchdog = 20 * time.Second
+var c20Watchdog = 20 * time.Second
 const c20Cap = 16
 
 // ---------------------------------------------------------------- the block pool (real squares, real headers)
@@ -288,53 +292,113 @@ func (x *c20Runner) check(s *c20Sub, resp *SubscriptionResponse) {
 	}
 }
 
-// waitClosed reads until the channel is closed; what is read was in the channel when the producer returned.
+// c20hchan mirrors the head of runtime.hchan (go1.26: qcount, dataqsiz, buf, elemsize, closed). It is used only to OBSERVE
+// that the producer has returned (close(blobCh)) without receiving from the channel: receiving before the producer has
+// evaluated len(blobCh) == cap(blobCh) would change what it decides. c20SelfTest checks the layout on every run.
+type c20hchan struct {
+	qcount   uint
+	dataqsiz uint
+	buf      unsafe.Pointer
+	elemsize uint16
+	closed   uint32
+}
+
+func c20IsClosed(ch <-chan *SubscriptionResponse) bool {
+	p := *(*unsafe.Pointer)(unsafe.Pointer(&ch))
+	return atomic.LoadUint32(&(*c20hchan)(p).closed) != 0
+}
+
+func c20SelfTest() error {
+	c := make(chan *SubscriptionResponse, 16)
+	var ro <-chan *SubscriptionResponse = c
+	p := *(*unsafe.Pointer)(unsafe.Pointer(&ro))
+	h := (*c20hchan)(p)
+	c <- nil
+	c <- nil
+	if h.qcount != 2 || h.dataqsiz != 16 || c20IsClosed(ro) {
+		return fmt.Errorf("runtime.hchan layout differs (qcount=%d dataqsiz=%d closed=%v)", h.qcount, h.dataqsiz, c20IsClosed(ro))
+	}
+	close(c)
+	if !c20IsClosed(ro) || h.qcount != 2 {
+		return errors.New("runtime.hchan layout differs (closed flag)")
+	}
+	return nil
+}
+
+// waitClosed waits until the producer has closed the channel, then reads what it left in it.
 // alsoCalls: a new getAll call instead of the closing is the violation named sig.
 func (x *c20Runner) waitClosed(s *c20Sub, kind string, h int, sig, what string, alsoCalls bool) bool {
-	n := 0
-	for {
-		var calls chan uint64
+	deadline := time.Now().Add(c20Watchdog)
+	for !c20IsClosed(s.ch) {
 		if alsoCalls {
-			calls = s.calls
-		}
-		select {
-		case resp, open := <-s.ch:
-			if !open {
-				// the event itself, then the reads that happened after it
-				s.events = append(s.events, c20Ev{Kind: kind, H: h, QLen: n})
-				for k := n - 1; k >= 0; k-- {
-					s.events = append(s.events, c20Ev{Kind: "consume", QLen: k})
-				}
-				s.queue = 0
-				s.pc, s.closed = "closed", true
-				return true
-			}
-			n++
-			x.check(s, resp)
-			if x.bad {
+			select {
+			case hh := <-s.calls:
+				x.violation(sig, fmt.Sprintf("sub %d: %s: the producer started another retrieval (height %d) instead of closing the stream", s.idx, what, hh))
 				return false
+			default:
 			}
-		case hh := <-calls:
-			x.violation(sig, fmt.Sprintf("sub %d: %s: the producer started another retrieval (height %d) instead of closing the stream", s.idx, what, hh))
-			return false
-		case <-time.After(c20Watchdog):
+		}
+		if time.Now().After(deadline) {
 			x.violation("not-closed", fmt.Sprintf("sub %d: %s: the stream was not closed within the watchdog", s.idx, what))
 			return false
 		}
+		runtime.Gosched()
+		time.Sleep(20 * time.Microsecond)
 	}
+	n := len(s.ch)
+	// the event itself, then the reads that happen after it
+	s.events = append(s.events, c20Ev{Kind: kind, H: h, QLen: n})
+	for k := n - 1; k >= 0; k-- {
+		resp, open := <-s.ch
+		if !open {
+			x.violation("response-lost", fmt.Sprintf("sub %d: %d responses were buffered at the closing, fewer could be read", s.idx, n))
+			return false
+		}
+		x.check(s, resp)
+		if x.bad {
+			return false
+		}
+		s.events = append(s.events, c20Ev{Kind: "consume", QLen: k})
+	}
+	if _, open := <-s.ch; open {
+		x.violation("response-without-header", fmt.Sprintf("sub %d: a response appeared after the stream was closed", s.idx))
+		return false
+	}
+	s.queue = 0
+	s.pc, s.closed = "closed", true
+	return true
 }
 
 func (x *c20Runner) waitCall(s *c20Sub, h int, what string) bool {
-	select {
-	case hh := <-s.calls:
-		if int(hh) != h {
-			x.violation("wrong-response:retrieval-height", fmt.Sprintf("sub %d: %s: retrieval for height %d, expected %d", s.idx, what, hh, h))
+	deadline := time.Now().Add(c20Watchdog)
+	for {
+		select {
+		case hh := <-s.calls:
+			if int(hh) != h {
+				x.violation("wrong-response:retrieval-height", fmt.Sprintf("sub %d: %s: retrieval for height %d, expected %d", s.idx, what, hh, h))
+				return false
+			}
+			return true
+		default:
+		}
+		if c20IsClosed(s.ch) {
+			x.violation("closed-without-cause", fmt.Sprintf(
+				"sub %d: %s: the stream was closed instead of retrieving height %d (cancel=%v stop=%v feedclosed=%v unread=%d)",
+				s.idx, what, h, s.cancelled, s.stopped, s.fclosed, s.queue))
 			return false
 		}
-		return true
-	case <-time.After(c20Watchdog):
-		x.violation("no-retrieval", fmt.Sprintf("sub %d: %s: no retrieval for height %d was started", s.idx, what, h))
-		return false
+		if len(s.ch) > s.queue {
+			x.violation("response-without-retrieval", fmt.Sprintf(
+				"sub %d: %s: a response was sent for height %d although its retrieval has not succeeded (the height is given up instead of retried)",
+				s.idx, what, h))
+			return false
+		}
+		if time.Now().After(deadline) {
+			x.violation("no-retrieval", fmt.Sprintf("sub %d: %s: no retrieval for height %d was started", s.idx, what, h))
+			return false
+		}
+		runtime.Gosched()
+		time.Sleep(20 * time.Microsecond)
 	}
 }
 
@@ -471,15 +535,10 @@ func (x *c20Runner) finish(s *c20Sub) {
 				return
 			}
 		}
-		select {
-		case resp, open := <-s.ch:
-			if !open {
-				x.violation("closed-without-cause", fmt.Sprintf("sub %d: the stream is closed at the end although nothing ended it (cancel=%v stop=%v feedclosed=%v pc=%s)", s.idx, s.cancelled, s.stopped, s.fclosed, s.pc))
-			} else {
-				x.check(s, resp)
-				x.violation("response-without-header", fmt.Sprintf("sub %d: an extra response was readable at the end", s.idx))
-			}
-		default:
+		if c20IsClosed(s.ch) {
+			x.violation("closed-without-cause", fmt.Sprintf("sub %d: the stream is closed at the end although nothing ended it (cancel=%v stop=%v feedclosed=%v pc=%s)", s.idx, s.cancelled, s.stopped, s.fclosed, s.pc))
+		} else if len(s.ch) > 0 {
+			x.violation("response-without-header", fmt.Sprintf("sub %d: an extra response was readable at the end", s.idx))
 		}
 	}
 }
@@ -686,14 +745,20 @@ func c20Term(x *c20Runner) string {
 func TestVerifC20(t *testing.T) {
 	r := zv.Start(t, "C20")
 	defer r.Finish()
+	if v, err := strconv.Atoi(os.Getenv("VERIF_C20_WATCHDOG_S")); err == nil && v > 0 {
+		c20Watchdog = time.Duration(v) * time.Second
+	}
 	g := r.Group("subscribe", c20Header, "case", "mismatches")
+	if err := c20SelfTest(); err != nil {
+		t.Fatalf("harness self-test: %v", err)
+	}
 	pool := c20BuildPool(t, zv.NewRand(r.Seed^0xc20), 40)
 
-	record := func(seed uint64) {
+	record := func(seed uint64) (bad bool) {
 		x := c20RunCase(r, t, pool, seed)
 		if x.bad {
 			r.Count("case", "abandoned")
-			return
+			return true
 		}
 		key := ""
 		for _, s := range x.subs {
@@ -709,6 +774,7 @@ func TestVerifC20(t *testing.T) {
 		}
 		r.Count("case", fmt.Sprintf("subs=%d", len(x.subs)))
 		g.Case(c20Term(x), x.snapshot(), key)
+		return false
 	}
 
 	var rep c20Case
@@ -717,7 +783,19 @@ func TestVerifC20(t *testing.T) {
 		return
 	}
 	rng := r.Rand()
-	for i := 0; i < r.N(1200, 40000); i++ {
-		record(rng.U64())
+	n := r.N(900, 40000)
+	if v, err := strconv.Atoi(os.Getenv("VERIF_C20_N")); err == nil && v > 0 {
+		n = v // debugging aid
+	}
+	bad := 0
+	for i := 0; i < n; i++ {
+		if record(rng.U64()) {
+			bad++
+		}
+		if bad >= 3 {
+			// every abandoned case may have cost a watchdog period; three replays are enough
+			r.Count("case", "stopped-after-3-violations")
+			break
+		}
 	}
 }
